@@ -125,7 +125,33 @@ func c09Run(r *ev.Run, shardI, shardN int) scopeReport {
 			}
 		}
 	}
-	rep.Bound = "per grid: 4 corners x 35 pairs of distances from the two borders (1 unit inside, 1 unit, pixel-1, pixel, pixel+1, 3 pixels outside) x every vertex position of shell and hole; and per grid: 4 borders x 42 distances (1, 2^1..2^36, pixel-1, pixel, pixel+1, 3 pixels, extent; in 1e-10 units) x {outside, inside} x every vertex position of shell (4) and hole (3) x both values of ignore-outside-grid"
+	// pairs: the outside vertex together with a second vertex ANYWHERE in the grid (a polygon may span the whole grid, so
+	// whatever is remembered about earlier vertices must not excuse a later one): on the 16x16-pixel grids every in-grid
+	// pixel x every pixel of the two-pixel frame around the grid x every position of the outside vertex in the ring
+	for _, g := range c09Grids() {
+		size := (g.MaxX - g.MinX) / g.Pixel
+		if size != 16 {
+			continue
+		}
+		for qy := int64(-2); qy < size+2; qy++ {
+			for qx := int64(-2); qx < size+2; qx++ {
+				if qx >= 0 && qx < size && qy >= 0 && qy < size {
+					continue
+				}
+				for py := int64(0); py < size; py++ {
+					for px := int64(0); px < size; px++ {
+						n++
+						if n%shardN != shardI {
+							continue
+						}
+						rep.States++
+						c09Pair(r, &rep, g, [2]int64{px, py}, [2]int64{qx, qy})
+					}
+				}
+			}
+		}
+	}
+	rep.Bound = "per 16x16-pixel grid: every in-grid pixel x every pixel of the two-pixel frame around the grid (144) as two vertices of a triangle (third vertex fixed), outside vertex at every ring position, as shell and as hole; per grid: 4 corners x 35 pairs of distances from the two borders (1 unit inside, 1 unit, pixel-1, pixel, pixel+1, 3 pixels outside) x every vertex position of shell and hole; and per grid: 4 borders x 42 distances (1, 2^1..2^36, pixel-1, pixel, pixel+1, 3 pixels, extent; in 1e-10 units) x {outside, inside} x every vertex position of shell (4) and hole (3) x both values of ignore-outside-grid"
 	rep.Inputs = rep.States
 	rep.States++
 	rep.WallS = time.Since(t0).Seconds()
@@ -224,6 +250,39 @@ func c09Two(r *ev.Run, rep *scopeReport, g c09Grid, border string, dist int64, b
 	for _, ids := range idSets {
 		for _, keep := range []bool{false, true} {
 			c09Judge(r, rep, g, border, dist, ringNo, idx, poly, outside, ids, keep)
+		}
+	}
+}
+
+// c09Pair: triangle over an in-grid pixel p, an outside pixel q of the frame and a fixed in-grid vertex; every rotation; as
+// the shell, and as the second ring behind a fixed in-grid shell
+func c09Pair(r *ev.Run, rep *scopeReport, g c09Grid, p, q [2]int64) {
+	px := g.Pixel
+	f := func(u int64) float64 { return float64(u) / math.Pow(10, 10) }
+	at := func(c [2]int64, fx, fy int64) [2]float64 { // point inside pixel c at (fx/4, fy/4) of the pixel
+		return [2]float64{f(g.MinX + c[0]*px + fx*px/4), f(g.MinY + c[1]*px + fy*px/4)}
+	}
+	// the outside vertex sits in its pixel on the side nearest to the grid (first frame ring: less than a pixel outside)
+	fq := [2]int64{1, 1}
+	if q[0] < 0 {
+		fq[0] = 3
+	}
+	if q[1] < 0 {
+		fq[1] = 3
+	}
+	tri := [][2]float64{at(p, 2, 2), at(q, fq[0], fq[1]), at([2]int64{8, 8}, 1, 1)}
+	dist := int64(1)
+	for _, c := range q {
+		if c < -1 || c > 16 {
+			dist = px
+		}
+	}
+	rep.Nontrivial++
+	for rot := 0; rot < 3; rot++ {
+		ring := [][2]float64{tri[rot], tri[(rot+1)%3], tri[(rot+2)%3]}
+		shellFixed := [][2]float64{at([2]int64{2, 2}, 1, 1), at([2]int64{13, 2}, 1, 1), at([2]int64{13, 13}, 1, 1), at([2]int64{2, 13}, 1, 1)}
+		for ringNo, poly := range []geom.Polygon{{ring}, {shellFixed, ring}} {
+			c09Judge(r, rep, g, "pair", dist, ringNo, (4-rot)%3, poly, true, []int{g.ID}, false)
 		}
 	}
 }
